@@ -62,7 +62,7 @@ pub fn table() -> Vec<ConstCase> {
     for (i, (e, v)) in f32_vals.iter().enumerate() {
         t.push(f32c(&format!("F32_LIT_{i}"), "literal", e, *v));
     }
-    for (i, (e, v)) in [("0.0lf", 0.0f64), ("-0.0lf", -0.0), ("0.1lf", 0.1), ("1.7976931348623157e308lf", f64::MAX), ("5e-324lf", 5e-324), ("-2.5lf", -2.5), ("16777217.0lf", 16777217.0), ("1.0lf", 1.0)].iter().enumerate() {
+    for (i, (e, v)) in [("0.0lf", 0.0f64), ("-0.0lf", -0.0), ("0.1lf", 0.1), ("1.7976931348623157e308lf", f64::MAX), ("5e-324lf", 5e-324), ("-2.5lf", -2.5), ("16777217.0lf", 16777217.0), ("1.0lf", 1.0), ("3.14159lf", 3.14159), ("2.71828lf", 2.71828), ("6.2831lf", 6.2831), ("1.41421lf", 1.41421)].iter().enumerate() {
         let name = format!("F64_LIT_{i}");
         t.push(ConstCase { name: name.clone(), decl: format!("const {name}: f64 = {e};"), expect: Some((vec!["f64"], Bits::F64(v.to_bits()))), form: "literal" });
     }
@@ -100,6 +100,20 @@ pub fn table() -> Vec<ConstCase> {
     t.push(i32c("lod2Bias", "name-style", "-3", -3));
     t.push(f32c("\u{394}t", "name-style", "0.5", 0.5));
     t.push(ConstCase { name: "useFog".into(), decl: "const useFog = false;".into(), expect: Some((vec!["bool"], Bits::Bool(false))), form: "name-style" });
+    // ---- values that are truncated / rounded spellings of well-known constants (a value is a value: no substitution)
+    t.push(f32c("APPROX_PI5", "approx", "3.14159", 3.14159));
+    t.push(f32c("APPROX_PI2", "approx", "3.14", 3.14));
+    t.push(f32c("APPROX_PI4", "approx", "3.1416", 3.1416));
+    t.push(f32c("APPROX_E", "approx", "2.718", 2.718));
+    t.push(f32c("APPROX_TAU", "approx", "6.28", 6.28));
+    t.push(f32c("APPROX_SQRT1_2", "approx", "0.7071", 0.7071));
+    t.push(f32c("APPROX_SQRT2", "approx", "1.414", 1.414));
+    t.push(f32c("APPROX_LN2", "approx", "0.693", 0.693));
+    t.push(f32c("APPROX_LN10", "approx", "2.302585", 2.302585));
+    t.push(f32c("APPROX_FRAC_PI_2", "approx", "1.5707", 1.5707));
+    t.push(f32c("APPROX_FRAC_1_PI", "approx", "0.3183", 0.3183));
+    t.push(f32c("NEG_APPROX_PI", "approx", "-3.14159", -3.14159));
+    t.push(f32c("EXACT_PI_F32", "approx", "3.14159265358979", std::f32::consts::PI));
     // ---- names that extend (but are not) names the generator introduces itself
     t.push(u32c("SOURCE_COUNT", "name-style", "3u", 3));
     t.push(i32c("SOURCES", "name-style", "-2", -2));
@@ -210,6 +224,22 @@ pub fn read_const(c: &omodel::ConstInfo) -> Result<(String, Bits), String> {
                         Ok(Bits::F64(if neg { -x } else { x }.to_bits()))
                     }
                     other => Err(format!("float literal with type {other}")),
+                }
+            }
+            // paths to the standard library's float constants evaluate to their documented values
+            Val::Path(p) if p.len() == 4 && p[0] == "std" && p[2] == "consts" && (p[1] == "f32" || p[1] == "f64") => {
+                use std::f64::consts as c64;
+                let table: [(&str, f64, f32); 12] = [
+                    ("PI", c64::PI, std::f32::consts::PI), ("E", c64::E, std::f32::consts::E), ("TAU", c64::TAU, std::f32::consts::TAU),
+                    ("SQRT_2", c64::SQRT_2, std::f32::consts::SQRT_2), ("FRAC_1_SQRT_2", c64::FRAC_1_SQRT_2, std::f32::consts::FRAC_1_SQRT_2),
+                    ("FRAC_PI_2", c64::FRAC_PI_2, std::f32::consts::FRAC_PI_2), ("FRAC_PI_4", c64::FRAC_PI_4, std::f32::consts::FRAC_PI_4),
+                    ("FRAC_1_PI", c64::FRAC_1_PI, std::f32::consts::FRAC_1_PI), ("LN_2", c64::LN_2, std::f32::consts::LN_2), ("LN_10", c64::LN_10, std::f32::consts::LN_10),
+                    ("FRAC_PI_3", c64::FRAC_PI_3, std::f32::consts::FRAC_PI_3), ("FRAC_2_PI", c64::FRAC_2_PI, std::f32::consts::FRAC_2_PI),
+                ];
+                match table.iter().find(|(n, _, _)| *n == p[3]) {
+                    Some((_, d, f)) if p[1] == "f64" => Ok(Bits::F64(if neg { -*d } else { *d }.to_bits())),
+                    Some((_, _, f)) => Ok(Bits::F32(if neg { -*f } else { *f }.to_bits())),
+                    None => Err(format!("unreadable constant value {v:?}")),
                 }
             }
             other => Err(format!("unreadable constant value {other:?}")),
